@@ -5,9 +5,9 @@ CONSTANTS
   MaxLen = 4
   Truncate = FALSE
   NoDrain = FALSE
-  StaleRemaining = TRUE
+  StaleRemaining = FALSE
   MinBuf = 4
-  SaturatedSkipsParse = FALSE
+  SaturatedSkipsParse = TRUE
   EofIgnoresRest = FALSE
 INVARIANTS P_C01 P_C12 P_C19
 VIEW view
